@@ -381,7 +381,8 @@ def main():
                         continue
                 rest.append(f)
             if rest:
-                rest.sort(key=lambda x: (x["i"], 0 if x["who"] in ("A", "B") else 1, x["clause"], x["who"]))  # earliest step, definition clauses first
+                # stable key: earliest step; an exception before anything else; definition clauses before coupling clauses
+                rest.sort(key=lambda x: (x["i"], 0 if x["clause"] in ("NotRaised", "Constructed") else 1, 0 if x["who"] in ("A", "B") else 1, x["clause"], x["who"]))
                 f0 = rest[0]
                 grp = {"P": "pair", "A": "run", "B": "run"}.get(f0["who"], "modes")
                 key = f"{grp}:{f0['clause']}"
@@ -427,7 +428,12 @@ def main():
                      f"relative margin of the leading coefficient {m['diag']['marginsA'][:1]}",
                      {"seed": ck.seed, "k": m["k"], "slot": m.get("slot"), "attempt": m.get("attempt", 0), "nslots": nslots, "what": "pair", "meta": m})
 
-    rejected, total = selftest(ck, st_items, st_metas)  # binding self-test: 13 single-field corruptions of an accepted pair must be rejected
+    try:  # binding self-test: 13 single-field corruptions of an accepted pair must be rejected
+        rejected, total = selftest(ck, st_items, st_metas)
+    except RuntimeError:
+        if not ck.violations:  # no accepted pair at all and no violation reported: machinery failure
+            raise
+        rejected, total = 0, 0
 
     # non-vacuity
     need = ["Initialise", "IterateReturnInf", "Finish", "Modes", "Degenerate"]
